@@ -182,15 +182,13 @@ func ruleC03_8(c *Ctx) {
 		c.check(okMiss, R, fname(f), "a missing element means: not a subset", f.Pos(), "!s.Has(key) => return false", "IsSubSet does not return false for an element the superset lacks")
 	}
 	if f := c.lookup("in_toto.artifactsDictKeyStrings"); f != nil {
-		ok := false
-		for _, b := range f.Blocks {
-			for _, in := range b.Instrs {
-				if st, isSt := in.(*ssa.Store); isSt && org(st.Val) == "key(p0)" {
-					ok = true
-				}
+		ok := len(returnsOf(f)) > 0
+		for _, r := range returnsOf(f) {
+			if m := c.keysOfMap(r.Results[0], r); m == nil || len(f.Params) == 0 || m != ssa.Value(f.Params[0]) {
+				ok = false
 			}
 		}
-		c.check(ok, R, fname(f), "returns the keys of the artifact map", f.Pos(), "res[i] = k for every key", "does not collect the map's keys")
+		c.check(ok, R, fname(f), "returns the keys of the artifact map", f.Pos(), "every key of the parameter is stored / appended unconditionally in a range over it", "does not return exactly the map's keys")
 	}
 }
 
